@@ -224,6 +224,52 @@ func genDecoder(seed int64, n int, tier string) []Script {
 		nops := 4 + r.Intn(16)
 		written := 0
 		var ops []map[string]any
+		cfgW, cfgB := W, B
+		switch r.Intn(24) {
+		case 0: // everything left to the defaults (8 MiB window, 16 MiB buffer)
+			cfgW, cfgB = 0, 0
+		case 1: // BufferSize left to its default (2 x WindowSize)
+			cfgB = 0
+			B = 2 * W
+		}
+		if r.Intn(6) == 0 {
+			// one long valid block: many sequences, each small enough to fit,
+			// together several times the free space, so that a single
+			// WriteBlock needs two or more flush-and-retry rounds; sometimes a
+			// malformed sequence at the end and long trailing literals
+			free := B - W
+			if free < 1 {
+				free = 1
+			}
+			var seqs [][]int64
+			nl := 0
+			w2 := 0
+			for q := 0; q < 8+r.Intn(20); q++ {
+				lit := int64(r.Intn(minI(3, free) + 1))
+				lim := w2 + int(lit)
+				if lim > W {
+					lim = W
+				}
+				var o, m int64
+				if lim > 0 {
+					o = int64(1 + r.Intn(lim))
+					m = int64(r.Intn(free - int(lit) + 1))
+				}
+				seqs = append(seqs, []int64{lit, m, o, 0})
+				nl += int(lit)
+				w2 += int(lit) + int(m)
+			}
+			switch r.Intn(4) {
+			case 0:
+				seqs = append(seqs, []int64{0, 3, int64(W + 1 + r.Intn(3)), 0}) // offset beyond the window
+			case 1:
+				seqs = append(seqs, []int64{int64(nl + 50), 1, 1, 0}) // more literals than there are
+			}
+			trailing := pickInt(r, 0, 1, free, 3*free+1)
+			ops = append(ops, map[string]any{"op": "dec.wblock", "seqs": seqs,
+				"lits": randBytes(r, nl+trailing, alpha), "retry": true})
+			written = w2 + trailing
+		}
 		for j := 0; j < nops; j++ {
 			retry := r.Intn(3) > 0
 			switch x := r.Intn(12); {
@@ -295,7 +341,7 @@ func genDecoder(seed int64, n int, tier string) []Script {
 		out = append(out, Script{
 			Tid:  "dec-go-" + itoa(seed) + "-" + itoa(int64(i)),
 			Comp: "dec",
-			Cfg:  map[string]any{"W": W, "B": B, "wsched": sched},
+			Cfg:  map[string]any{"W": cfgW, "B": cfgB, "wsched": sched},
 			Ops:  ops,
 			Tags: tags,
 		})
